@@ -408,6 +408,7 @@ func (l *log) delete(offsets map[int64]struct{}) ([]Message, int64, error) {
 	wasWriter := false
 	var writerVersion message.Version
 	var writerSize int64 = -1
+	var writerLen int
 	l.writerMu.Lock()
 	if l.writer.reader == rdr {
 		wasWriter = true
@@ -418,6 +419,7 @@ func (l *log) delete(offsets map[int64]struct{}) ([]Message, int64, error) {
 		}
 		// publishes go on while the head is rewritten: only what is written by now is read
 		writerSize = l.writer.messages.Size()
+		writerLen = l.writer.index.Len()
 	} else if rdr.head {
 		// the head segment rolled over since it was chosen and its reader
 		// was replaced: choose again
@@ -472,6 +474,11 @@ func (l *log) delete(offsets map[int64]struct{}) ([]Message, int64, error) {
 		newWriter, newReader, err := l.writer.Delete(rs)
 		switch {
 		case err == errSegmentChanged:
+			if l.writer.index.Len() == writerLen {
+				// nothing was published since: the head log holds records its index does not
+				// know (a publish that failed halfway), rewriting again would not help
+				return nil, 0, fmt.Errorf("delete: %w: head log and index disagree", message.ErrCorrupted)
+			}
 			// a publish landed in the head since it was rewritten, Delete retries
 			return nil, 0, errSegmentChanged
 		case err != nil:
